@@ -267,11 +267,14 @@ CORPUS = [
 
 def _witnesses():
     out = list(CORPUS)
-    try:
-        ks = json.load(open(os.path.join(os.path.dirname(__file__), "..", "..", "known-findings.d", "C02.json")))
-    except (OSError, ValueError):
-        return out
-    for k in ks.get("findings", []):
+    root = os.path.join(os.path.dirname(__file__), "..", "..")
+    entries = []
+    for path in (os.path.join(root, "known-findings.json"), os.path.join(root, "known-findings.d", "C02.json")):
+        try:
+            entries += [k for k in json.load(open(path)).get("findings", []) if k.get("property") == "C02"]
+        except (OSError, ValueError):
+            pass
+    for k in entries:
         w = k.get("witness")
         if not w:
             continue
